@@ -18,6 +18,10 @@ CHECKS = {
    "Grammar-generated standard jq programs (type-guided, every built-in fq redefines, local defs shadowing fq names) on generated JSON inputs are run by fq (Interp.Eval and the in-process CLI) and by the vanilla gojq fork; output sequences and error positions are compared as values; disagreements are shrunk and signed by (built-ins, input type, kind).",
    "Error text is not compared; environment-dependent built-ins are excluded; timeouts are inconclusive.",
    "runtime monitor: differential testing against the embedded reference engine", "DESIGN.md §3 C07"),
+ "C08": ("exploration",
+   "Per corpus tree up to 36 values chosen to cover every scalar kind present (with and without symbolic mapping, structs, arrays) are put through ~80 read-only queries each as [v|q]|tovalue and [v|tovalue|q]; results are compared in Go under per-query documented normalisations; tovalue of scalars is also compared with sym ?? actual read from the Go tree.",
+   "Documented differences (key order, string key on non-object, underscore keys, non-UTF-8 raw bits) are normalised per query; update operators are outside the family.",
+   "runtime monitor: metamorphic/differential check of decode values against their JSON values", "DESIGN.md §3 C08"),
  "C09": ("exploration",
    "Generated expression trees over strings, integers, big integers, decode-value fields and opened files with tobits/tobytes(/n)/to*range, indexing, slicing, .bits/.bytes, nested binary arrays, tonumber/tostring/explode/to_hex and the size/start/stop/unit keys are evaluated by fq and by a Go reference bit-string evaluator written from doc/usage.md; algebraic laws are derived cases.",
    "Negative top-level numbers and floats are out of domain.",
@@ -75,7 +79,7 @@ CHECKS = {
    "Nested-buffer values are compared against the nested root's own reader (its agreement with independent decompressors is C15).",
    "runtime monitor: differential check of jq binaries against the input bytes", "DESIGN.md §3 C05"),
  "C20": ("exploration",
-   "Layer 1 executes every sequence of push/finish/interrupt/stop (length<=7, depth<=4 quick) on the real ctxstack with a handshaked trigger and compares every context with a stack model after every operation; layer 2 records randomized concurrent evaluator/interrupter/observer histories at the client boundary and checks them for linearizability against the same model with porcupine, all under the Go race detector whose reports are violations.",
+   "Layer 1 executes every sequence of push/finish/interrupt/stop (length<=7, depth<=4 quick) on the real ctxstack with a handshaked trigger and compares every context with a stack model after every operation; layer 2 records randomized concurrent evaluator/interrupter/observer histories at the client boundary and checks them for linearizability against the same model with porcupine; layer 3 runs interp.Main with scripted nested REPLs and event-driven interrupts and requires the transcript to equal that of the same session without the cancelled work; all under the Go race detector whose reports are violations.",
    "Precondition from fq's usage: a closure implicitly finished by an outer finish is not invoked later. Race detector only sees executed interleavings.",
    "race detector + exhaustive sequential model check of executions + porcupine linearizability of recorded histories", "DESIGN.md §3 C20"),
  "C01": ("exploration",
